@@ -97,7 +97,7 @@ def _reference(dynamic, alpha, stream, model, loss, names, recorded):
 def BOUNDED(tier, seed):
     import numpy as np
     from ixai.explainer import IncrementalPFI
-    from ixai.imputer import MarginalImputer
+    from ixai.imputer import MarginalImputer, DefaultImputer
     from ixai.storage import UniformReservoirStorage, GeometricReservoirStorage
     warnings.simplefilter('ignore')
     rng = random.Random(seed)
@@ -106,7 +106,7 @@ def BOUNDED(tier, seed):
         for alpha in (Fraction(1, 2), Fraction(1), Fraction(1, 8)):
             for n_inner in (1, 2):
                 for names in (['a', 'b'], ['a', 1, 2.5]):
-                    for strategy in ('joint', 'product'):
+                    for strategy in ('joint', 'product', 'default'):
                         def model(x):
                             return {'output': sum(Fraction(v) * (i + 1) for i, (k, v) in enumerate(x.items()) if k != names[-1])}
 
@@ -116,14 +116,15 @@ def BOUNDED(tier, seed):
                         recorded = {}
                         cur = {'t': 0}
 
-                        class Rec(MarginalImputer):
+                        class Rec(DefaultImputer if strategy == 'default' else MarginalImputer):
                             def impute(self, feature_subset, x_i, n_samples=1):
                                 r = super().impute(feature_subset, x_i, n_samples)
                                 assert list(feature_subset) == [feature_subset[0]] and len(r) == n_samples
                                 assert n_samples == (3 if cur['t'] == 2 else n_inner), 'number of inner samples requested'
                                 recorded[(cur['t'], feature_subset[0])] = r
                                 return r
-                        ex = IncrementalPFI(model, loss, list(names), storage=st, imputer=Rec(model, strategy, st),
+                        imputer = Rec(model, values={k: Fraction(1) for k in names}) if strategy == 'default' else Rec(model, strategy, st)
+                        ex = IncrementalPFI(model, loss, list(names), storage=st, imputer=imputer,
                                             smoothing_alpha=alpha, n_inner_samples=n_inner, dynamic_setting=dynamic)
                         random.seed(seed)
                         np.random.seed(seed)
